@@ -293,11 +293,12 @@ class Sx:
                 c.slow[label] = dt
             if r == z3.sat:
                 m = c.solver.model()
-                if isinstance(robust, SymBool) and self.sym:
-                    r3 = c._check(robust.z)
-                    if r3 == z3.sat:
-                        m = c.solver.model()
-                        neg = robust.z
+                if self.sym:
+                    for rb in (robust if isinstance(robust, (list, tuple)) else [robust]):      # widest margin first
+                        if isinstance(rb, SymBool) and c._check(rb.z) == z3.sat:
+                            m = c.solver.model()
+                            neg = rb.z
+                            break
                 if self.sym:
                     # prefer a counterexample that is interior to the path (every branch decision holds with a margin), then a
                     # generic one: boundary models often do not survive replay in floating point
@@ -342,7 +343,7 @@ class Sx:
             for v in vals:
                 if _isnum(v) and math.isfinite(v):
                     scale += abs(float(v))
-            return float(tol) + FLOAT_SLACK * scale
+            return float(tol) + getattr(self, 'float_slack', FLOAT_SLACK) * scale
         return tol
 
     def close(self, a, b, tol=TOL):
@@ -356,13 +357,14 @@ class Sx:
         return (d <= t) & (-d <= t) if is_sym(d) or is_sym(t) else (abs(d) <= t)
 
     MARGIN = Fraction(1, 1000)
+    MARGINS = [Fraction(1, 1000), Fraction(1, 10**6), Fraction(1, 10**9)]      # violated-by-a-margin models, widest first
 
     def prove_eq(self, a, b, label, tol=TOL):
         rob = None
         if self.sym and not (core._is_inf(a) or core._is_inf(b)):
             d = a - b
             if is_sym(d):
-                rob = (d > tol + self.MARGIN) | (-d > tol + self.MARGIN)
+                rob = [(d > tol + mg) | (-d > tol + mg) for mg in self.MARGINS]
         return self.prove(self.close(a, b, tol), label, rob)
 
     def prove_le(self, a, b, label, tol=0):
@@ -376,8 +378,8 @@ class Sx:
         t = self._tol(tol, a, b)
         rob = None
         if self.sym and is_sym(a - b):
-            rob = (a - b > t + self.MARGIN)
-        return self.prove(a - b <= t, label, rob if isinstance(rob, SymBool) else None)
+            rob = [(a - b > t + mg) for mg in self.MARGINS]
+        return self.prove(a - b <= t, label, rob)
 
     @contextlib.contextmanager
     def must_not_raise(self, label, allowed=()):
